@@ -99,8 +99,8 @@ PROPS = {
     },
     "C08": {
         "thm": "SameVerif.Thm.C08",
-        "suites": ["asmseq", "asmscen", "sigc01", "sigseq"],
-        "spec_filter": r"^spec\.(asm c08|sig c08|sig c08seq) ",
+        "suites": ["asmseq", "asmscen", "sigc01", "sigseq", "sighold"],
+        "spec_filter": r"^spec\.(asm c08|sig c08|sig c08seq|sig c08hold) ",
         "technique": "Lean 4 invariants over all assembler operation histories (no EndOfMessage is ever left pending; accept never sets a deadline beyond now+hold; a due result is released by the next poll) + differential correspondence of the Assembler incl. private state + per-tick-polled scenario sweeps judged by a delay oracle",
         "level_text": "Proved in Lean over every state and every operation of the assembler model: an EndOfMessage is output by the very call that assembles its establishing burst and is never left pending; every pending result is due no later than its acceptance + MAX_INTERBURST_SYMBOLS (= documented 1.311 s, from the generated constants) and any poll at or after the deadline outputs it and empties the slot, so nothing is held for ever. "
                       "The model is tied to the real Assembler through the hook (outputs and private state after every call) and on thousands of scripted histories with a poll at every idle tick; the oracle checks EOM-at-burst-tick and SOM <= last carrying burst + hold on a quiet channel.",
